@@ -514,9 +514,18 @@ def run_c1(prog, res):
             if sw is None or n > sw[1]:
                 sw = (b, n)
     sw = sw[0]
+    # locals every definition of which is computed from top (`need = top + n`) stand for top in a capacity check
+    from cfg import local_defs as _ld
+    topish = {topv}
+    for vid in range(len(fn.vars)):
+        if vid in fn.params or vid == topv:
+            continue
+        ds = [r for (_d, r) in _ld(fn, vid)]
+        if ds and all(r is not None and topv in fn.refs_in(r) for r in ds):
+            topish.add(vid)
     caps = set()
     for b in fn.blocks.values():
-        if b.cond is not None and topv in fn.refs_in(b.cond):
+        if b.cond is not None and (topish & fn.refs_in(b.cond)):
             t = fn.txt(b.cond)
             if "stack.length" in t and any(fn.nodes[x]["k"] == "bin" and fn.nodes[x]["o"] in (">=", ">", "<", "<=")
                                            for x in fn.subtree(b.cond)):
@@ -674,7 +683,7 @@ def run_c3(prog, res, floor=2):
     return stat
 
 
-def run_c4(prog, res, floor=1):
+def run_c4(prog, res, floor=0):
     """pushing bytes back into a port's buffer stores at buf[--offset]; inside a loop (a data-dependent number of
     bytes) the store must be dominated by a comparison that mentions that offset - the loop's own condition or a
     clamp of the count before it - or the offset runs below zero and the bytes land in front of the buffer, which
@@ -696,6 +705,16 @@ def run_c4(prog, res, floor=1):
             if not (xn["k"] == "un" and xn["o"] in ("pre--", "post--")):
                 continue
             t = fn.strip(xn["c"][0])
+            alias_v = None
+            if fn.nodes[t]["k"] == "ref" and "d" in fn.nodes[t] and fn.nodes[t]["d"] not in fn.params:
+                # off = port->offset; ... buf[--off] ...; port->offset = off
+                from cfg import local_defs as _ld4
+                for (_d, r) in _ld4(fn, fn.nodes[t]["d"]):
+                    if r is not None and fn.nodes[fn.strip(r)]["k"] == "mem":
+                        r_root, r_path = fn.mempath(fn.strip(r))
+                        if r_path == ["value", "port", "offset"]:
+                            alias_v = fn.nodes[t]["d"]
+                            t = fn.strip(r)
             if fn.nodes[t]["k"] != "mem":
                 continue
             root, path = fn.mempath(t)
@@ -752,6 +771,8 @@ def run_c4(prog, res, floor=1):
                         r2, p2 = fn.mempath(m)
                         if p2 == ["value", "port", "offset"] and fn.txt(r2) == owner:
                             ok = True
+                    if alias_v is not None and mn["k"] == "ref" and mn.get("d") == alias_v:
+                        ok = True
             if ok:
                 stat.discharged += 1
                 stat.sample({"site": fn.where(i), "function": fn.name})
